@@ -39,6 +39,23 @@ def threshold(ctx, f, tag, light):
     return tally
 
 
+def seen_key_rule(ctx, g, tag):
+    """The seen-validators set is keyed by the validator's identity (index / address found in the
+    trusted set), not by the position of the signature in the commit."""
+    ks = call_sites_with(ctx, g, ["*HashMap*::get", "*HashMap*::insert", "*HashMap*::contains_key", "*HashSet*::insert", "*HashSet*::contains", "*HashMap*::entry"])
+    ok = bool(ks)
+    bad = None
+    for b in ks:
+        e = call_expr(g, b)
+        if len(e[3]) < 2:
+            continue
+        kl = ctx.leaves(e[3][1])
+        if not has_leaf(kl, ["call:*find_validator", "field:validator_address", "call:*Set::validator"]):
+            ok = False
+            bad = g.loc(b)
+    ctx.check(ok, tag + ".trusting.seen-key", g.path, "the double-vote set is keyed by the trusted validator's identity (not by the signature position)", site=bad, key=tag + ".trusting.seen-key")
+
+
 def run(ctx):
     f = ctx.anchor(LIGHT)
     if f:
@@ -66,6 +83,7 @@ def run(ctx):
                         removed.add((a, d))
                 precedes_ok = g.path_to([0], set(tally), removed) is None
             ctx.check(precedes_ok, "C03.trusting.seen-insert", g.path, "validator recorded in the seen set before its power is tallied", site=g.loc(ins[0]) if ins else None, key="C03.trusting.seen-insert")
+            seen_key_rule(ctx, g, "C03")
             # the verifying validator is the one looked up by the signature's address in self
             vs = call_sites_with(ctx, g, ["*verify_signature"])
             ok = bool(vs) and all(has_all(ctx.leaves(call_expr(g, b)), ["call:*find_validator", "a1", "a3.signatures"]) or has_all(ctx.leaves(call_expr(g, b)), ["call:*Set::validator", "a1", "a3.signatures"]) for b in vs)
